@@ -5,6 +5,12 @@ a list of failure messages (empty = ok).  Add the module name to MODULES."""
 import importlib
 
 MODULES = [
+    "ec",
+    "ecdsa",
+    "streebog",
+    "mdhash",
+    "chacha",
+    "gost28147",
 ]
 
 
